@@ -11,4 +11,5 @@ PROP = {'level': 'proof',
                "strength of MD5 is claimed; freshness of crypto/rand is the OS's (call site checked syntactically, distinctness sampled).",
  'trusted': ['Lean MD5 (RFC 1321) compared with crypto/md5 on every case through the Encode/predicate results',
              'go/ast fact: New reads from crypto/rand'],
- 'assumptions': ['crypto/rand returns fresh bytes']}
+ 'assumptions': ['crypto/rand returns fresh bytes'],
+ 'facts': ['encodeClass', 'requestClass', 'encodeClassOutOfRange', 'newUsesCryptoRand']}
